@@ -3,12 +3,14 @@ package c17
 import (
 	"crypto/aes"
 	"crypto/cipher"
+	"crypto/rsa"
 	"crypto/x509"
 	"encoding/base64"
 	"encoding/json"
 	"encoding/pem"
 	"fmt"
 	"strings"
+	"sync"
 
 	kit "github.com/dapr/kit/crypto"
 	"github.com/dapr/kit/crypto/aescbcaead"
@@ -520,6 +522,21 @@ func symScenarios() (out []*scenario) {
 				if ref.NonceLen != 0 {
 					out = append(out, symEncryptScenario(entry, symCase{alg: name, path: "bad-nonce", key: key, nonce: data("nonce", nl+1), data: data("pt", n), aad: aad5}, n))
 				}
+				if n == 0 || n == 16 || n == 17 {
+					// the other sizes around each boundary, with the reduced layout set
+					for _, ks := range []int{1, ref.KeyLen - 1, ref.KeyLen + 8} {
+						sc := symEncryptScenario(entry, symCase{alg: name, path: fmt.Sprintf("key-size=%d", ks), key: data("key", ks), nonce: nonce, data: data("pt", n), aad: aad5}, n)
+						sc.focus = "key"
+						out = append(out, sc)
+					}
+					if ref.NonceLen != 0 {
+						for _, x := range []int{0, 1, nl - 1, nl + 8} {
+							sc := symEncryptScenario(entry, symCase{alg: name, path: fmt.Sprintf("nonce-size=%d", x), key: key, nonce: data("nonce", x), data: data("pt", n), aad: aad5}, n)
+							sc.focus = "nonce"
+							out = append(out, sc)
+						}
+					}
+				}
 			}
 			for _, n := range invalid {
 				out = append(out, symEncryptScenario(entry, symCase{alg: name, path: "bad-plaintext-length", key: key, nonce: nonce, data: data("pt", n), aad: aad5}, n))
@@ -556,6 +573,25 @@ func symScenarios() (out []*scenario) {
 					mk("bad-key-size", symCase{key: data("key", ref.KeyLen+1)})
 					if ref.NonceLen != 0 {
 						mk("bad-nonce", symCase{nonce: data("nonce", nl+1)})
+					}
+					if ai == 1 && (n == 0 || n == 16 || n == 17) {
+						mkf := func(path, focus string, c symCase) {
+							mk(path, c)
+							out[len(out)-1].focus = focus
+						}
+						for _, ks := range []int{1, ref.KeyLen - 1, ref.KeyLen + 8} {
+							mkf(fmt.Sprintf("key-size=%d", ks), "key", symCase{key: data("key", ks)})
+						}
+						if ref.NonceLen != 0 {
+							for _, x := range []int{0, 1, nl - 1, nl + 8} {
+								mkf(fmt.Sprintf("nonce-size=%d", x), "nonce", symCase{nonce: data("nonce", x)})
+							}
+						}
+						if ref.TagLen != 0 {
+							for _, x := range []int{0, 1, tl + 1, tl + 8} {
+								mkf(fmt.Sprintf("tag-size=%d", x), "tag", symCase{tag: append(clone(tag), make([]byte, 8)...)[:x]})
+							}
+						}
 					}
 					if ref.TagLen != 0 {
 						mk("bad-tag-size", symCase{tag: tag[:len(tag)-1]})
@@ -681,6 +717,29 @@ func asymScenarios() (out []*scenario) {
 				out = append(out, dec(entry, name, "public-key-given", rsaPub.JWK, ct, label, fam, n))
 				out = append(out, dec(entry, name, "short-ciphertext", rsaPriv.JWK, ct[:100], label, fam, n))
 			}
+			// length dimension of the ciphertext, around the modulus size
+			ct, err := cryptoref.RSAEncrypt(ref, &rsaPub.RSA.PublicKey, data("pt", 32), label)
+			if err != nil {
+				panic(err)
+			}
+			for _, n := range aroundSize(len(ct)) {
+				var v []byte
+				path := fmt.Sprintf("ciphertext-last-%d-of-%d", n, len(ct))
+				if n <= len(ct) {
+					v = clone(ct[len(ct)-n:])
+				} else {
+					v = append(make([]byte, n-len(ct)), ct...)
+					path = fmt.Sprintf("ciphertext-zero-prefixed-to-%d-of-%d", n, len(ct))
+				}
+				sc := dec(entry, name, path, rsaPriv.JWK, v, label, fam, 32)
+				sc.focus = "ciphertext"
+				out = append(out, sc)
+			}
+			if zpt, zct := leadingZeroCiphertext(ref, &rsaPub.RSA.PublicKey, label); zct != nil {
+				sc := dec(entry, name, "valid-ciphertext-leading-zero-stripped", rsaPriv.JWK, clone(zct[1:]), label, fam, len(zpt))
+				sc.focus = "ciphertext"
+				out = append(out, sc)
+			}
 		}
 	}
 	return out
@@ -775,8 +834,83 @@ func sigScenarios() (out []*scenario) {
 		if ref.Class != cryptoref.SigEdDSA {
 			out = append(out, sign(name, "bad-digest-length", priv.JWK, data("digest", dl+1), fam))
 		}
+		// length dimension: every byte-slice argument at the lengths around the
+		// boundaries a verifier / signer tests, not only the well-formed one
+		focus := func(sc *scenario, role string) *scenario { sc.focus = role; return sc }
+		d := data("digest", dl)
+		sig, err := cryptoref.Sign(ref, sigPriv(priv), d)
+		if err != nil {
+			panic(err)
+		}
+		size := len(sig) // RSA: the modulus size; ECDSA: this DER encoding; Ed25519: 64
+		for _, n := range aroundSize(size) {
+			if n <= size {
+				// cut at the end, and cut at the front (what dropping leading bytes of an integer looks like)
+				out = append(out, focus(verify(name, fmt.Sprintf("signature-cut-to-%d-of-%d", n, size), pub.JWK, d, clone(sig[:n]), fam), "signature"))
+				if n > 0 {
+					out = append(out, focus(verify(name, fmt.Sprintf("signature-last-%d-of-%d", n, size), pub.JWK, d, clone(sig[size-n:]), fam), "signature"))
+				}
+			} else {
+				out = append(out, focus(verify(name, fmt.Sprintf("signature-extended-to-%d-of-%d", n, size), pub.JWK, d, append(clone(sig), make([]byte, n-size)...), fam), "signature"))
+				out = append(out, focus(verify(name, fmt.Sprintf("signature-zero-prefixed-to-%d-of-%d", n, size), pub.JWK, d, append(make([]byte, n-size), sig...), fam), "signature"))
+			}
+		}
+		if ref.KeyFamily() == "RSA" {
+			// a VALID signature whose value happens to start with a zero byte, with that byte dropped
+			zd, zsig := leadingZeroSignature(ref, priv)
+			if zsig != nil {
+				out = append(out, focus(verify(name, "valid-signature-with-leading-zero", pub.JWK, zd, zsig, fam), "signature"))
+				out = append(out, focus(verify(name, "valid-signature-leading-zero-stripped", pub.JWK, zd, clone(zsig[1:]), fam), "signature"))
+			}
+		}
+		dlens := []int{0, 1, dl - 1, dl + 1, dl + 8, 2 * dl}
+		if ref.Class == cryptoref.SigEdDSA {
+			dlens = []int{31, 33, 64, 65}
+		}
+		for _, n := range dlens {
+			dd := data("digest", n)
+			out = append(out, focus(sign(name, "digest-length", priv.JWK, dd, fam), "digest"))
+			out = append(out, focus(verify(name, fmt.Sprintf("digest-length|signature-of-%d", dl), pub.JWK, dd, sig, fam), "digest"))
+		}
 	}
 	return out
+}
+
+// aroundSize: 0, 1, size-8 .. size-1, size+1, size+8 (size itself is the "ok" path).
+func aroundSize(size int) []int {
+	ns := []int{0, 1}
+	for n := size - 8; n < size; n++ {
+		if n > 1 {
+			ns = append(ns, n)
+		}
+	}
+	return append(ns, size+1, size+8)
+}
+
+var (
+	zeroSigMu    sync.Mutex
+	zeroSigCache = map[string][2][]byte{}
+)
+
+// leadingZeroSignature searches digests 0, 1, 2 ... (deterministic) for one
+// whose reference signature starts with a zero byte (about one in 200 for these
+// moduli). The result is cached; nil if none is found among 4000.
+func leadingZeroSignature(ref cryptoref.Alg, priv *cryptokeys.Key) (digest, sig []byte) {
+	zeroSigMu.Lock()
+	defer zeroSigMu.Unlock()
+	if c, ok := zeroSigCache[ref.Name]; ok {
+		return c[0], c[1]
+	}
+	for i := 0; i < 4000; i++ {
+		d := data(fmt.Sprintf("zero-search-%d", i), ref.Hash.Size())
+		s, err := cryptoref.Sign(ref, sigPriv(priv), d)
+		if err == nil && s[0] == 0 {
+			zeroSigCache[ref.Name] = [2][]byte{d, s}
+			return d, s
+		}
+	}
+	zeroSigCache[ref.Name] = [2][]byte{nil, nil}
+	return nil, nil
 }
 
 func sigPriv(k *cryptokeys.Key) any {
@@ -855,4 +989,24 @@ func allScenarios() []*scenario {
 	out = append(out, sigScenarios()...)
 	out = append(out, parseKeyScenarios()...)
 	return out
+}
+
+// leadingZeroCiphertext searches plaintexts (deterministic; the reference's
+// randomness is a constant stream) for an RSA ciphertext starting with a zero byte.
+func leadingZeroCiphertext(ref cryptoref.Alg, pub *rsa.PublicKey, label []byte) (pt, ct []byte) {
+	zeroSigMu.Lock()
+	defer zeroSigMu.Unlock()
+	if c, ok := zeroSigCache["ct:"+ref.Name]; ok {
+		return c[0], c[1]
+	}
+	for i := 0; i < 8000; i++ {
+		p := data(fmt.Sprintf("zero-ct-search-%d", i), 24)
+		c, err := cryptoref.RSAEncrypt(ref, pub, p, label)
+		if err == nil && c[0] == 0 {
+			zeroSigCache["ct:"+ref.Name] = [2][]byte{p, c}
+			return p, c
+		}
+	}
+	zeroSigCache["ct:"+ref.Name] = [2][]byte{nil, nil}
+	return nil, nil
 }
